@@ -47,7 +47,8 @@ var propSpecs = map[string]*PropSpec{
 	"C12": {ID: "C12", Pkgs: []string{"./internal/stats"}},
 	"C13": {ID: "C13", Pkgs: []string{"./benchmath"}, BoundedChecks: []boundedSpec{
 		{"benchmath", "compare", "AssumeNothing.Compare on all pairs of small samples: both sizes, p in [0,1], symmetric, invariant under reordering and common rescaling, equal to the exact permutation p-value for untied samples, threshold carried — the statistical content lives in the external module go-moremath and is outside deductive reach"}}},
-	"C14": {ID: "C14", Pkgs: []string{"./cmd/benchstat/internal/benchtab", "./benchproc"}},
+	"C14": {ID: "C14", Pkgs: []string{"./cmd/benchstat/internal/benchtab", "./benchproc", "./benchmath"}, BoundedChecks: []boundedSpec{
+		{"cmd/benchstat", "pipeline", "the real benchstat() entry point on generated input files under six flag settings (-table/-row/-col/-ignore/-filter), CSV output compared with an independent recomputation from the generated measurements: one cell per (table,row,column) with at least one filtered measurement and no others, centre = median of exactly those values, baseline = first column's cell of the row, sample sizes baseline first, exact rank-sum p-value and delta for untied samples, geomean row, and exactly the expected `benchmarks vary in` warnings — Builder.Add, ToTables (goroutines, maps keyed by Key), summarizeCol and the renderers are not under contract"}}},
 	"C16": {ID: "C16", Pkgs: []string{"./cmd/benchstat/internal/texttab", "./benchproc"}},
 	"C17": {ID: "C17", Pkgs: []string{"./benchstat", "./internal/stats"}, BoundedChecks: []boundedSpec{
 		{"benchstat", "legacy", "whole Tables() outputs against an independent recomputation: outlier fence (R8 quartiles) and retained values in input order, min<=mean<=max, the significance gate / percentage / direction / note for every pair of samples and each delta test, first-appearance and stable sort order, geomean row — Tables, computeStats and addGeomean are not under contract"}}},
